@@ -168,6 +168,21 @@ main(int argc, char** argv)
       continue;
     }
     if (!hash) { puts("bad-op"); continue; }
+    if (!strcmp(tok[0], "newfail") && n == 2) {
+      // zix_hash_new while the allocator refuses its k-th request (0 = the header, 1 = the entry array): NULL, nothing kept
+      const int k = atoi(tok[1]);
+      if (k < 0 || k > 1) { puts("bad-op"); continue; }
+      const size_t before = v_alloc_outstanding(&va);
+      va.fail_at = va.n_requests + k;
+      ZixHash* const h = zix_hash_new(&va.base, key_func, hash_func, equal_func);
+      va.fail_at = -1;
+      printf("newfail=%s", h ? "NON-NULL" : "NULL");
+      if (v_alloc_outstanding(&va) != before) printf(" SPEC-FAIL:failed-zix_hash_new-keeps-%zu-block(s)", v_alloc_outstanding(&va) - before);
+      if (h) zix_hash_free(h);
+      wb();
+      fputc('\n', stdout);
+      continue;
+    }
     if (!strcmp(tok[0], "failnext")) {
       va.fail_at = va.n_requests;
       puts("failnext");
